@@ -26,6 +26,17 @@ CHECKS.update({
          ENGINE_NOTE + "; faults are injected at the MemStore boundary, so counterexamples cannot be replayed against the real persister", "4 C03"),
 })
 
+CHECKS.update({
+ "C09": ("the real expand engine on K symbolic rows (page size 100/1/2): every edge of the tree is a stored relationship, each subject set expanded once, height within the effective depth, everything reachable within the depth present (bounded-reachability formula over the rows), leaves cross-checked with the real check engine",
+         ENGINE_NOTE, "4 C09"),
+ "C11": ("OPL programs of a User/Group/Doc skeleton with a choice at every reference site go through the real parser and type checker; accepted programs configure the real engine, which must not return a schema error on any conforming symbolic store; programs with an undeclared reference must be rejected with an error naming it",
+         ENGINE_NOTE + "; program space = the skeleton's variants only", "4 C11"),
+ "C15": ("every path of the real engine (operator set and recursive-permission configurations) returns: hangs are deadlocks of the modelled scheduler, runaway recursion exceeds the call-depth budget; storage calls bounded; cancellation before the call or inside storage call c (symbolic c); after return and context release no modelled goroutine is left blocked",
+         ENGINE_NOTE + "; goroutines, channels, select, sync and context are the executor's models of Go's semantics", "4 C15"),
+ "C16": ("the real Mapper (FromTuple/ToTuple/FromQuery/ToQuery/ToTree) on batches of tuples whose names are opaque symbolic strings with solver-decided equalities: position-wise round trip, right id in the right field, equal strings equal ids, read-only mapper never writes",
+         "the MappingManager is an injective table stub; the SQL mapping manager (paging by 100, insert-on-conflict) is not covered by this check", "4 C16"),
+})
+
 NOT_APPLICABLE = {}
 
 def main():
